@@ -180,7 +180,12 @@ func MakeCase(in PipeIn, workdir string, caseNo int) Case {
 	for _, m := range res.Matches {
 		order = append(order, fmt.Sprintf("od %s %d", HS(fullName(m)), m.LineNo))
 	}
-	outCoq := fmt.Sprintf("{| o_completed := %s; o_R := %d; o_M := %d; o_I := %d; o_errs := %d; o_summary := unhex %s; o_sorted := %s; o_order := %s |}",
+	var cli []string
+	for _, c := range res.Cli {
+		b, _ := hex.DecodeString(c)
+		cli = append(cli, "rl "+RL(b))
+	}
+	outCoq := fmt.Sprintf("{| o_completed := %s; o_R := %d; o_M := %d; o_I := %d; o_errs := %d; o_summary := unhex %s; o_sorted := %s; o_order := %s; o_cli := "+CoqList(cli)+" |}",
 		B(res.Completed), res.R, res.M, res.I, res.ReadErrs, HS(res.Summary), CoqList(sorted), CoqList(order))
 
 	// boundary classes
@@ -455,8 +460,13 @@ var c02Regexes = []string{
 	`((a+)(b+))+`,
 	`(?P<first>\w)\w*(?P<last>\w)`,
 	`b*`,
+	// nothing but literal characters and capture groups (a regexp whose literal prefix is "complete")
+	`(ab)`,
+	`(?P<key>a)(b)c`,
+	`x=(1)`,
+	`%`,
 }
-var c02Alpha = []byte("aabbcxyz  :=019\t-\xc3\xa9")
+var c02Alpha = []byte("aabbcxyz  :=019\t-\xc3\xa9%%")
 
 // GenC02 aims at match fields: regex matchers with optional/nested/alternated/named groups.
 func GenC02(r *Rng, n int, tier string) []PipeIn {
@@ -512,6 +522,7 @@ func GenC02(r *Rng, n int, tier string) []PipeIn {
 			in.Sources = []Source{{Name: "<stdin>", Stream: hex.EncodeToString(stream), Script: genScript(r, stream)}}
 		} else {
 			in.Cfg.Mode = "files"
+			in.Cfg.Cli = true // default `rare filter` output of the real command, without and with colour
 			in.Cfg.Gunzip = r.Chance(1, 5)
 			ns := 1 + r.Intn(4)
 			for i := 0; i < ns; i++ {
